@@ -159,7 +159,8 @@ def delayTeleI (i : FA) (us : Time) : List Out :=
   if i.telemetry then [Out.telemetry i.clientId (str s!"delay(dev): {us / 1000000}.{String.ofList (List.replicate (6 - (toString (us % 1000000)).length) '0')}{us % 1000000}")] else []
 
 /-- one step of the reference on a non-empty program.  A send is started once (its text goes to the output buffer) and
-    is left when the buffer has drained; an expect is left when it matches; a delay is started once and left when its
+    is left when the buffer has drained — the buffer holds 65536 bytes, beyond that the oldest queued bytes give way (`clipTo`)
+    and the telemetry line of the send is not produced (`sendTele`) —; an expect is left when it matches; a delay is started once and left when its
     time has passed; a guard whose condition holds is replaced by its body, a guard on a known other state is skipped,
     a guard on an unknown state fails the action. -/
 def fstep (now : Time) (d : Dev) (i : FA) (o : Oracle) (f : F) : FR :=
@@ -170,8 +171,8 @@ def fstep (now : Time) (d : Dev) (i : FA) (o : Oracle) (f : F) : FR :=
       match text with
       | none => ⟨d, i, o, [.abortAssert "hostlist_sort assert in _process_send"], f, .aborted⟩
       | some s =>
-        let out := [Out.sent s] ++ (if i.telemetry then teleMem i.clientId "send(dev): '" s else [])
-        ⟨{ d with toBuf := d.toBuf ++ s }, i, o, out,
+        let out := [Out.sent s] ++ sendTele d i.telemetry i.clientId s
+        ⟨{ d with toBuf := clipTo (d.toBuf ++ s) }, i, o, out,
           if (d.toBuf ++ s).isEmpty then ⟨r, false⟩ else ⟨f.rem, true⟩, classify out (d.toBuf ++ s).isEmpty⟩
     else ⟨d, i, o, [], if d.toBuf.isEmpty then ⟨r, false⟩ else f, classify [] d.toBuf.isEmpty⟩
   | .expect pat :: r =>
@@ -1242,11 +1243,11 @@ theorem sim_send (R : Bool) (dp : List Plug) (now : Time) (d : Dev) (a : Action)
     | some t =>
       obtain ⟨r1, r2, r3, r4, r5⟩ := stmtSend_fresh d a o e fmt t hp' hst
       have hfs : fstep now d (info a) o (abs R dp a.exec) =
-          ⟨{ d with toBuf := d.toBuf ++ t }, info a, o,
-           [Out.sent t] ++ (if a.telemetry then teleMem a.clientId "send(dev): '" t else []),
+          ⟨{ d with toBuf := clipTo (d.toBuf ++ t) }, info a, o,
+           [Out.sent t] ++ sendTele d a.telemetry a.clientId t,
            if (d.toBuf ++ t).isEmpty then ⟨unroll R dp (e.block.drop (e.pos + 1)) e.plugs ++ cont R dp rest, false⟩
              else ⟨.send (some t) :: (unroll R dp (e.block.drop (e.pos + 1)) e.plugs ++ cont R dp rest), true⟩,
-           classify ([Out.sent t] ++ (if a.telemetry then teleMem a.clientId "send(dev): '" t else [])) (d.toBuf ++ t).isEmpty⟩ := by
+           classify ([Out.sent t] ++ sendTele d a.telemetry a.clientId t) (d.toBuf ++ t).isEmpty⟩ := by
         rw [habs, hst]; simp only [fstep, hp']; rfl
       refine sim_leaf R dp now d a o e rest _ hex hcur rfl hok (!(d.toBuf ++ t).isEmpty) ?_ ?_ ?_ ?_ ?_ ?_ ?_ ?_ ?_ ?_ ?_
       · rw [hps, r5]; simp [hdrop]
